@@ -19,6 +19,7 @@ from .pyfacts import ClassRef, EnumMember, PyProgram, Term
 
 ADDR = 0x12345  # concrete address used for analyze/lift (page 0x01, non-trivial low bits)
 MAXLEN = 7
+SPLIT_BUDGET = 70000   # cases per opcode when operand values steer control flow
 
 
 class AbsInfo:
@@ -82,6 +83,7 @@ class Case:
     lift_exc: str = ""
     trunc_exc: str = ""                # exception when the buffer is one byte short
     templates_changed: bool = False
+    fixed: tuple = ()                  # ((data index, value), ...) operand bytes made concrete because control flow depends on them
 
 
 def _tok(t: Any) -> tuple:
@@ -143,7 +145,7 @@ class Sweeper:
         self.py = PyProgram()
         self.ia = IsaAbs(self.py)
 
-    def run_case(self, pre: int | None, opcode: int, selector: int | None, stages: tuple = ("encode", "render", "analyze", "lift", "trunc"), data: list | None = None, addr: int | None = None) -> Case:
+    def run_case(self, pre: int | None, opcode: int, selector: int | None, stages: tuple = ("encode", "render", "analyze", "lift", "trunc"), data: list | None = None, addr: int | None = None, fixed: dict | None = None) -> Case:
         """`data`: explicit instruction bytes after the prefix (bit-vectors over any symbols); default is opcode + fresh symbols in0.."""
         c = Case(pre, opcode, selector)
         ia = self.ia
@@ -152,6 +154,9 @@ class Sweeper:
             data = [BitVec.const(opcode)] + sym_bytes(MAXLEN - 1)
             if selector is not None:
                 data[1] = BitVec.const(selector)
+            for k, v in (fixed or {}).items():
+                data[k] = BitVec.const(v)
+            c.fixed = tuple(sorted((fixed or {}).items()))
         try:
             instr, dec = ia.decode_one(data, ADDR + (1 if pre is not None else 0))
         except Raised as e:
@@ -238,16 +243,29 @@ class Sweeper:
         return c
 
     def cases_for_opcode(self, opcode: int, stages: tuple) -> list[Case]:
+        return self.split_cases(None, opcode, {}, stages, [SPLIT_BUDGET])
+
+    def split_cases(self, pre: int | None, opcode: int, fixed: dict, stages: tuple, budget: list, depth: int = 0) -> list[Case]:
+        """Run one case; when control flow hinges on a symbolic operand byte, enumerate that byte (the selector byte first)."""
         try:
-            return [self.run_case(None, opcode, None, stages)]
-        except Unknown:
-            pass
-        out = []
-        for sel in range(256):
-            try:
-                out.append(self.run_case(None, opcode, sel, stages))
-            except Unknown as e:
-                raise AnalysisError(f"opcode {opcode:#04x} selector {sel:#04x}: abstract execution left the fragment: {e}")
+            return [self.run_case(pre, opcode, fixed.get(1), stages, fixed={k: v for k, v in fixed.items() if k != 1} or None)]
+        except Unknown as e:
+            syms = sorted(s for s in getattr(e, "symbols", ()) if len(s) == 3 and s.startswith("in") and s[2].isdigit())
+            idx = [int(s[2]) + 1 for s in syms if int(s[2]) + 1 not in fixed]
+            if 1 not in fixed:
+                k = 1                       # the mode/selector byte decides most control flow
+            elif idx:
+                k = idx[0]
+            else:
+                raise AnalysisError(f"opcode {opcode:#04x} bytes {fixed}: abstract execution left the fragment: {e}")
+            if depth >= 3:
+                raise AnalysisError(f"opcode {opcode:#04x}: control flow depends on more than three operand bytes: {e}")
+        out: list[Case] = []
+        for v in range(256):
+            budget[0] -= 1
+            if budget[0] < 0:
+                raise AnalysisError(f"opcode {opcode:#04x}: value-dependent control flow needs more than {SPLIT_BUDGET} cases")
+            out += self.split_cases(pre, opcode, {**fixed, k: v}, stages, budget, depth + 1)
         return out
 
 
@@ -269,7 +287,10 @@ def _work(job: tuple) -> list[Case]:
             return _SW.cases_for_opcode(job[1], job[2])
         if kind == "pre":
             _k, pre, opcode, sels, stages = job
-            return [_SW.run_case(pre, opcode, s, stages) for s in sels]
+            out: list[Case] = []
+            for fx in sels:
+                out += _SW.split_cases(pre, opcode, dict(fx), stages, [SPLIT_BUDGET])
+            return out
     except AnalysisError as e:
         return [Case(None, job[1], None, status="error", exc=str(e))]
     except Unknown as e:
@@ -301,8 +322,8 @@ def sweep(stages: tuple = ("encode", "render", "analyze", "lift", "trunc"), with
                 for c in cs:
                     if c.status != "ok":
                         continue
-                    key = (c.n, tuple(c.operands), c.cls) if with_prefixes == "reps" else (c.selector,)
-                    reps.setdefault(key, c.selector)
+                    key = (c.n, tuple(c.operands), c.cls) if with_prefixes == "reps" else (c.selector, c.fixed)
+                    reps.setdefault(key, {**({1: c.selector} if c.selector is not None else {}), **dict(c.fixed)})
                 sels = list(reps.values())
                 if not sels:
                     continue
